@@ -3,7 +3,6 @@ package participle
 import (
 	"fmt"
 	"reflect"
-	"strconv"
 	"strings"
 	"text/scanner"
 	"unicode/utf8"
@@ -184,13 +183,9 @@ func (t *tagLexer) Next() (lexer.Token, error) {
 func textScannerTransform(token lexer.Token) (lexer.Token, error) {
 	// Unquote strings.
 	switch token.Type {
-	case scanner.Char:
-		// FIXME(alec): This is pretty hacky...we convert a single quoted char into a double
-		// quoted string in order to support single quoted strings.
-		token.Value = fmt.Sprintf("\"%s\"", token.Value[1:len(token.Value)-1])
-		fallthrough
-	case scanner.String:
-		s, err := strconv.Unquote(token.Value)
+	case scanner.Char, scanner.String:
+		// Single-quoted strings are allowed too: unquote knows all three kinds of quote.
+		s, err := unquote(token.Value)
 		if err != nil {
 			return lexer.Token{}, Errorf(token.Pos, "%s: %q", err.Error(), token.Value)
 		}
